@@ -208,8 +208,14 @@ Proof.
   intros Ho Hl. unfold max_results.
   destruct (wrap64_sum_nonneg off lim Ho Hl) as [H1 H2].
   destruct (Z_le_gt_dec (off + lim) max_int64) as [Hle|Hgt].
-  - rewrite (H1 Hle). assert (E : (off + lim <? 0) = false) by (apply Z.ltb_ge; lia). rewrite E. lia.
-  - specialize (H2 Hgt). apply Z.ltb_lt in H2. rewrite H2. lia.
+  - rewrite (H1 Hle).
+    assert (E : ((0 <? off) && (off + lim <? lim)) = false).
+    { apply andb_false_iff. destruct (Z.ltb_spec 0 off); [right; apply Z.ltb_ge; lia | left; reflexivity]. }
+    rewrite E. lia.
+  - specialize (H2 Hgt).
+    assert (E1 : (0 <? off) = true) by (apply Z.ltb_lt; unfold max_int64 in *; lia).
+    assert (E2 : (wrap64 (off + lim) <? lim) = true) by (apply Z.ltb_lt; lia).
+    rewrite E1, E2. simpl. lia.
 Qed.
 
 Lemma bounded_tree_page {A : Type} (S : list A) off lim :
